@@ -1265,7 +1265,7 @@ def run(rep, tier, seed):
   progs = specs_for("quick")
   if tier != "quick":
     have = {src for _, _, src in progs}
-    progs = progs + [("inf", spec, src) for _, spec, src in specs_for("thorough") if src not in have]
+    progs = progs + [("inf", spec, src) for _, spec, src in specs_for("thorough") if src not in have][::4]   # every fourth
   items = []
   nstub = 0
   maxslots = 0
@@ -1289,7 +1289,7 @@ def run(rep, tier, seed):
   # definition-rich programs (PS-def) with the stub pytype infers for them
   from vk import defspace
   ndef = 0
-  for i, src in defspace.programs(tier):
+  for i, src in defspace.programs("quick"):   # thorough: the whole quick PS-def set (the thorough PS-def set is ~10^4 analyses)
     if tier != "quick" or i.startswith(("alone:", "flow:assign<-", "flow:outside<-", "flow:default<-", "flow:initattr<-")):
       items.append(("inf", src, [], 0, None))
       ndef += 1
